@@ -190,8 +190,11 @@ def main(argv=None):
         "wall_s": round(wall, 2),
         "violations": len(new_sigs),
     }
-    os.makedirs(os.path.join(VERIF, "evidence"), exist_ok=True)
-    json.dump(ev, open(os.path.join(VERIF, "evidence", f"{prop}.json"), "w"), indent=1, ensure_ascii=False, default=str)
+    # VERIF_EVIDENCE_DIR: used by tools/seeded.py so that runs against deliberately broken scratch copies do not
+    # overwrite the evidence of the real tree
+    evdir = os.environ.get("VERIF_EVIDENCE_DIR") or os.path.join(VERIF, "evidence")
+    os.makedirs(evdir, exist_ok=True)
+    json.dump(ev, open(os.path.join(evdir, f"{prop}.json"), "w"), indent=1, ensure_ascii=False, default=str)
 
     print(
         f"[{prop}] tier={tier} seed={seed} evaluations={agg['evaluations']} distinct_nontrivial={agg['distinct_nontrivial']} "
